@@ -119,6 +119,20 @@ func (tp *tractPacker) doneAdding() {
 	// Wait for all size calls to finish.
 	tp.sizeWg.Wait()
 	// Don't need lock to read from tp.stamps after this.
+
+	// Only replicas whose mod stamp we collected get the conditional version
+	// bump in encBump, so only they may serve as sources for PackTracts: a
+	// write that reaches an un-stat'ed replica after it was packed would go
+	// unnoticed.
+	for _, pts := range tp.tracts {
+		from := make([]core.TSAddr, 0, len(pts.From))
+		for _, addr := range pts.From {
+			if _, ok := tp.stamps[tractOnHost{pts.ID, addr.ID}]; ok {
+				from = append(from, addr)
+			}
+		}
+		pts.From = from
+	}
 }
 
 func (tp *tractPacker) packTracts() {
